@@ -82,6 +82,7 @@ SHAPES = {
     "enum_disc_exprs": "#[repr(u8)] enum S {{ {V}A = b'a', B = 1 << 7, C = {{ 1 + 2 }}, D = !0 as u8 >> 1, E = u8::MAX - 1, F = (7), G = -1i8 as u8, H = LEN as u8, I = if true {{ 5 }} else {{ 6 }} }}",
     "enum_odd_names": "enum S {{ {V}\u03a9mega, \u00dcberBreit, __, _x, X, r#fn, a1B2, \U00010400x }}",
     "struct_odd_name": "struct \u03a9;", "struct_underscores": "struct __;",
+    "enum_pair": "enum S {{ {V}A({F}i32, {G}u8), B }}", "enum_pair_named": "enum S {{ {V}A {{ {F}x: i32, {G}y: u8 }}, B(String) }}",
     "array_const": "struct S<T>({F}[T; LEN], {G}[u8; core::mem::size_of::<u64>()], Wrap<{{ LEN + 1 }}>);",
 }
 
